@@ -139,12 +139,24 @@ ConstExactOK(e) ==
 
 Inexact(e) == e.form = "lit" /\ ConstExactOK(e) /\ e.bound # e.real.exact /\ ~Drifted(e)
 
-\* ConstKind: the re-materialised constant is of the same kind.  fixConst has no case for
-\* runes: an untyped rune constant comes back as an untyped INTEGER constant (token INT) -
-\* same value, but `x := utf8.RuneError` gets type int instead of rune.  Reported
-\* separately (RuneAsInt) as a known finding; ConstExact accepts INT for a rune.
-KindTok(k) == CASE k = "rune" -> "CHAR" [] OTHER -> TokOf(k)
-RuneAsInt(e) == e.form = "lit" /\ ConstExactOK(e) /\ e.tok # KindTok(e.real.ckind)
+\* An untyped rune constant is re-materialised with token INT (fixConst has no case for
+\* runes): the value is exactly the same, which is all the property asks for; the loss of
+\* the rune kind is noted in dev/C14-NOTES.md as an observation and is not checked.
+
+\* EmissionAgrees (C18): the entry is what the generating specification (PkgGen.tla,
+\* ExpectedEmission) predicts for the declaration of that name: same class of bound
+\* expression, for a literal the same token and exact value, for a wrapper the same
+\* method set.  want.em = "any": no model-level expectation to compare with.
+FormOfEm(em) == CASE em = "value" -> "value" [] em = "address" -> "addr" [] em = "literal" -> "lit"
+                  [] em = "type" -> "type" [] em = "wrapper" -> "type" [] OTHER -> "none"
+EmissionAgreesOK(e) ==
+    \/ e.want.em = "any"
+    \/ IF e.under THEN e.want.em = "wrapper" /\ Range(e.wrapMethods) = Range(e.want.methods)
+       ELSE /\ e.form = FormOfEm(e.want.em)
+            /\ (e.want.em = "literal" =>
+                  /\ e.tok \in ({e.want.tok} \cup (IF e.want.tok = "CHAR" THEN {"INT"} ELSE {}))   \* a rune may come back as INT
+                  /\ \/ e.bound = e.want.exact
+                     \/ (e.real.ckind = "float" /\ ~e.real.dyadic /\ e.lit = e.real.rounded))      \* Inexact
 
 -------------------------------------------------------------------------------
 (* Expectations: what has to be bound.                                          *)
@@ -152,11 +164,13 @@ RuneAsInt(e) == e.form = "lit" /\ ConstExactOK(e) /\ e.tok # KindTok(e.real.ckin
 \* <<package path, name>> the release r declares for platform p (expect facts carry the
 \* first release that records the name and "any" or "goos/goarch")
 ExpectNames(r, p) == {<<All[i].keyPath, All[i].name>> :
-                        i \in {j \in ExpectIdx : All[j].rel <= r /\ All[j].plat \in {"any", p}}}
+                        i \in {j \in ExpectIdx : All[j].rel <= r /\ All[j].plat \in {"any", p}
+                                                 /\ All[j].emission # "skipped"}}
 \* ... and that must be bound: not generic, not withdrawn (api/except.txt)
 MustBind(r, p) == {<<All[i].keyPath, All[i].name>> :
                      i \in {j \in ExpectIdx : All[j].rel <= r /\ All[j].plat \in {"any", p}
-                                              /\ ~All[j].generic /\ ~All[j].excepted}}
+                                              /\ ~All[j].generic /\ ~All[j].excepted
+                                              /\ All[j].emission # "skipped"}}
 
 Judged(plat) == Mode = "gen" \/ plat \in ApiPlatforms
 
@@ -246,21 +260,21 @@ BadClassAgrees    == BadE(ClassAgreesOK)
 BadVarsByAddress  == BadE(VarsByAddressOK)
 BadConstExact     == BadE(ConstExactOK)
 BadNoExtras       == BadE(NoExtrasOK)
+BadEmission       == BadE(EmissionAgreesOK)
 BadWrapperEntry   == BadE(WrapperEntryOK)
 BadImplements     == BadE(ImplementsOK)
 BadMethod         == {All[i].id : i \in {j \in MethodIdx : ~MethodOK(All[j])}}
 BadUnit           == {All[i].id : i \in {j \in UnitIdx : ~UnitOK(All[j])}}
 InexactSet        == {All[i].id : i \in {j \in EntryIdx : Inexact(All[j])}}
-RuneAsIntSet      == {All[i].id : i \in {j \in EntryIdx : RuneAsInt(All[j])}}
 
 Verdict ==
     [ entries |-> Cardinality(EntryIdx), methods |-> Cardinality(MethodIdx),
       units |-> Cardinality(UnitIdx), expects |-> Cardinality(ExpectIdx),
       groups |-> Cardinality(Groups), judgedGroups |-> Cardinality({h \in Groups : Judged(h[2])}),
       KeyWellFormed |-> BadKey, NameIdentity |-> BadNameIdentity, ClassAgrees |-> BadClassAgrees,
-      VarsByAddress |-> BadVarsByAddress, ConstExact |-> BadConstExact, NoExtras |-> BadNoExtras,
+      VarsByAddress |-> BadVarsByAddress, ConstExact |-> BadConstExact, NoExtras |-> BadNoExtras, EmissionAgrees |-> BadEmission,
       Complete |-> Missing, WrapperEntry |-> BadWrapperEntry, WrapperMismatch |-> WrapperMismatch,
-      WrapperForwards |-> BadMethod, WrapperImplements |-> BadImplements, Compiles |-> BadUnit, Inexact |-> InexactSet, RuneAsInt |-> RuneAsIntSet ]
+      WrapperForwards |-> BadMethod, WrapperImplements |-> BadImplements, Compiles |-> BadUnit, Inexact |-> InexactSet ]
 
 \* The facts are read and evaluated once, when the single state is built.
 Init == verdict = Verdict
@@ -274,6 +288,7 @@ ClassAgrees     == verdict.ClassAgrees = {}
 VarsByAddress   == verdict.VarsByAddress = {}
 ConstExact      == verdict.ConstExact = {}
 NoExtras        == verdict.NoExtras = {}
+EmissionAgrees  == verdict.EmissionAgrees = {}
 Complete        == verdict.Complete = {}
 WrapperPresent  == verdict.WrapperEntry = {} /\ verdict.WrapperMismatch = {}
 WrapperForwards == verdict.WrapperForwards = {} /\ verdict.WrapperImplements = {}
